@@ -60,6 +60,20 @@ CHECKS['C18'] = dict(
     technique='exhaustive closed evaluation of the notation domain + VCs from symbolic execution (z3) + exact rational identities / '
               'coefficient certificates (sympy) on the real code')
 
+CHECKS['C11'] = dict(
+    category='proof',
+    text='For each of the 12 predefined variants the real constructor chain (create_state -> Variant.__init__ -> super().__init__ ... -> '
+         'Poker.__call__ -> State(...)) is executed symbolically -- MRO, super() and class attributes taken from the real classes, every bet '
+         'size, ante, bring-in and stack symbolic -- and at the call State(...) the deck, hand types, every street (burn, hole facings, board '
+         'cards, draw, opening rule, bet size, raise cap), the betting structure and the forced-bet kind are proved equal to spec/variants.py, '
+         'written from the class names and docs/simulation.rst; all other parameters are proved to be passed through. The PHH variant codes '
+         '(closed dict) are compared exhaustively.',
+    design_ref='DESIGN.md section 4 (C11), section 8',
+    note='decides the configuration half of the statement for all parameter choices; the behavioural half (only the fixed bet size and four '
+         'raises in fixed-limit, stack in no-limit, pot in pot-limit, two halves in split games) follows from these fields plus the C03/C02 '
+         'contracts and is not re-proved here.',
+    technique='sidecar contracts + symbolic execution of the real constructor chain + z3; exhaustive comparison of a closed dict')
+
 NOT_APPLICABLE = {
     'C20': 'regex-driven text importers against external site formats; no contract within reach expresses or decides it (DESIGN.md section 5)',
 }
